@@ -183,6 +183,42 @@ func VerifFixtureGenerators() {
 	verifrt.Reach("end")
 }
 
+// dataEOFReader returns io.EOF together with the last bytes of r (as iotest.DataErrReader).
+type dataEOFReader struct {
+	r    io.Reader
+	next []byte
+	err  error
+	init bool
+}
+
+func (d *dataEOFReader) fill() {
+	buf := make([]byte, 2)
+	n, err := d.r.Read(buf)
+	d.next, d.err = buf[:n], err
+	if n == 0 && err == nil {
+		d.err = io.EOF
+	}
+}
+
+func (d *dataEOFReader) Read(p []byte) (int, error) {
+	if !d.init {
+		d.init = true
+		d.fill()
+	}
+	if len(d.next) == 0 {
+		return 0, d.err
+	}
+	n := copy(p, d.next)
+	d.next = d.next[n:]
+	if len(d.next) == 0 && d.err == nil {
+		d.fill()
+		if len(d.next) == 0 {
+			return n, d.err // the look-ahead found the end: report it with these bytes
+		}
+	}
+	return n, nil
+}
+
 // VerifFixtureFile (C19): UnixFSFile and WrapContent describe what they stored.
 func VerifFixtureFile() {
 	st := verifmodel.NewStore()
@@ -195,10 +231,15 @@ func VerifFixtureFile() {
 	// the random source may run dry before `size` bytes were drawn: the fixture then
 	// holds what there was, and says so
 	avail := size
-	if verifrt.Choose(2) == 1 {
+	switch verifrt.Choose(3) {
+	case 1:
 		avail = verifrt.Choose(size + 1)
 		rr = io.LimitReader(rr, int64(avail))
 		verifrt.Reach("short-source")
+	case 2:
+		// a source holding exactly `size` bytes that delivers its last bytes together with io.EOF
+		rr = &dataEOFReader{r: io.LimitReader(rr, int64(size))}
+		verifrt.Reach("eof-with-data")
 	}
 	de, err := UnixFSFile(*ls, size, WithRandReader(rr), WithChunker("size-2"))
 	if avail < size && err != nil {
